@@ -883,7 +883,7 @@ impl Check for C08 {
     }
     fn budget(&self, tier: Tier) -> (u64, Duration) {
         match tier {
-            Tier::Quick => (30_000, Duration::from_secs(120)),
+            Tier::Quick => (100_000, Duration::from_secs(120)),
             Tier::Thorough => (u64::MAX, Duration::from_secs(600)),
         }
     }
@@ -1037,7 +1037,7 @@ impl Check for C17 {
     }
     fn budget(&self, tier: Tier) -> (u64, Duration) {
         match tier {
-            Tier::Quick => (20_000, Duration::from_secs(120)),
+            Tier::Quick => (80_000, Duration::from_secs(120)),
             Tier::Thorough => (u64::MAX, Duration::from_secs(600)),
         }
     }
@@ -1191,7 +1191,7 @@ impl Check for C18 {
     }
     fn budget(&self, tier: Tier) -> (u64, Duration) {
         match tier {
-            Tier::Quick => (30_000, Duration::from_secs(120)),
+            Tier::Quick => (100_000, Duration::from_secs(120)),
             Tier::Thorough => (u64::MAX, Duration::from_secs(600)),
         }
     }
